@@ -7,3 +7,9 @@ pub(crate) mod c12 {
     use super::super::*;
     include!(concat!(env!("LIBP2P_VERIF"), "/units/C12/peer.rs"));
 }
+
+/// C12: the DialFailure arm of on_swarm_event as a K-fragment (extracted each run)
+#[allow(dead_code, unused_imports)]
+pub(crate) mod c12f {
+    include!(concat!(env!("LIBP2P_VERIF"), "/units/C12/arm.rs"));
+}
